@@ -28,7 +28,7 @@ _PURE = {
     "isnan": math.isnan, "isinf": math.isinf, "isfinite": math.isfinite, "copysign": math.copysign,
 }
 _STR_METHODS = {"startswith", "endswith", "strip", "lstrip", "rstrip", "partition", "rpartition", "split", "rsplit", "ljust", "rjust", "zfill", "lower", "upper", "replace",
-                "removeprefix", "removesuffix", "isdigit", "find", "index", "count", "join", "format", "isidentifier", "isalpha", "isalnum", "isupper", "islower",
+                "removeprefix", "removesuffix", "isdigit", "find", "index", "rfind", "rindex", "count", "join", "format", "isidentifier", "isalpha", "isalnum", "isupper", "islower",
                 "capitalize", "title", "casefold", "swapcase"}
 _SET_METHODS = {"intersection", "union", "difference", "issubset", "issuperset", "isdisjoint", "symmetric_difference", "copy"}
 _RE_PURE = {"re.split", "re.findall", "re.compile", "re.sub", "re.escape"}
@@ -177,6 +177,13 @@ def ev(t: Sym, env: Dict[Any, Any]) -> Any:
                     except TypeError:
                         raise Unknown("unhashable key")
                 return default
+        if t[1] == ("n", "next") and len(t[2]) in (1, 2) and not t[3] and t[2][0][0] == "c" and isinstance(t[2][0][1], tuple):
+            # next(<generator expression over constants, folded to the tuple of what it yields>[, default]): its first element
+            if t[2][0][1]:
+                return t[2][0][1][0]
+            if len(t[2]) == 2:
+                return ev(t[2][1], env)
+            raise Unknown("next() of an exhausted iterator")
         if t[1][0] == "a" and t[1][2] in _STR_METHODS:
             try:
                 recv = ev(t[1][1], env)
